@@ -476,6 +476,42 @@ class NutsRun:
                     o.active = False
                 if k == "warmup":
                     o.history = "after_warmup"
+            elif k == "interrupt":
+                # the target raises at an arbitrary leaf; the same sampler object is used again afterwards
+                pr = refs["p_logd"]
+                pr.fault_plan[pr.calls + 1 + int(op["j"])] = "raise"
+                self.phase = "sample"
+                s._pre_sample()
+                o.begin(s.current_point, s.get_state()["state"]["_epsilon"])
+                try:
+                    s.sample(int(op["n"]))
+                except core.SimCrash:
+                    ctx.hit("transition_interrupted")
+                    o.history = "after_interrupt"
+                    x = as_vec(s.current_point)
+                    for name, val, rf in (("current_target_logd", s.current_target_logd, refs["ref_logd"](x)),
+                                          ("current_target_grad", s.current_target_grad, refs["ref_grad"](x))):
+                        if not close(np.asarray(val, float), np.asarray(rf, float), 1e-8):
+                            ctx.violate(PROP, "cache_coherence", o.sig(cache=name, history=o.history), cached=val, reference=rf)
+                finally:
+                    o.active = False
+                    pr.fault_plan.clear()
+            elif k == "snapshot":
+                import copy as _copy
+                st_ = s.get_state()
+                self.saved_state = {"metadata": dict(st_["metadata"]),
+                                    "state": {kk: _copy.deepcopy(vv) for kk, vv in st_["state"].items()}}
+            elif k == "rollback":
+                # an earlier state is restored into the same sampler object after the chain has moved on
+                if getattr(self, "saved_state", None) is not None:
+                    s.set_state(self.saved_state)
+                    o.history = "after_rollback"
+                    ctx.fault("state_rollback")
+                    x = as_vec(s.current_point)
+                    for name, val, rf in (("current_target_logd", s.current_target_logd, refs["ref_logd"](x)),
+                                          ("current_target_grad", s.current_target_grad, refs["ref_grad"](x))):
+                        if not close(np.asarray(val, float), np.asarray(rf, float), 1e-8):
+                            ctx.violate(PROP, "cache_coherence", o.sig(cache=name, history=o.history), cached=val, reference=rf)
             elif k == "retarget":
                 # the public target setter on an initialised sampler (what a Gibbs orchestrator does): the cached
                 # log-density and gradient must still belong to the current point
@@ -605,11 +641,18 @@ def gen_case(r, tier):
                 ops.append({"op": "sample", "n": r.randint(1, 12)})
             elif x < 0.82:
                 ops.append({"op": "warmup", "n": r.randint(1, 25)})
-            elif x < 0.92:
+            elif x < 0.90:
                 ops.append({"op": "reload"})
-            else:
+            elif x < 0.95:
                 ops.append({"op": "retarget"})
-        if not any(o["op"] in ("sample", "warmup") for o in ops) or ops[-1]["op"] in ("reload", "retarget"):
+            else:
+                ops.append({"op": "interrupt", "j": r.randint(0, 25), "n": r.randint(1, 4)})
+        if r.random() < 0.15:
+            ops.append({"op": "interrupt", "j": r.randint(0, 25), "n": r.randint(1, 4)})
+        if r.random() < 0.15:
+            ops = [{"op": "sample", "n": r.randint(1, 6)}, {"op": "snapshot"}, {"op": "sample", "n": r.randint(2, 8)},
+                   {"op": "rollback"}] + ops
+        if not any(o["op"] in ("sample", "warmup") for o in ops) or ops[-1]["op"] in ("reload", "retarget", "rollback", "interrupt"):
             ops.append({"op": "sample", "n": r.randint(1, 8)})
     else:
         adapt = r.choice([True, False, 0.05, 0.3, 0.9, 2.5])
